@@ -352,6 +352,14 @@ var boundaryTexts = func() map[string][]string {
 	m["date"] = []string{"999999999-12-31", "1000000000-01-01", "2147483647-01-01", "2147483648-01-01", "4294967296-01-01", "99999999991231", "9999999991231", "0000-01-01", "00000101", "0000-00-00", "2023-02-29", "2024-02-30", "2024-13-01"}
 	m["roman"] = []string{strings.Repeat("M", 120) + "DCCCLXXXVIII", strings.Repeat("M", 128), strings.Repeat("M", 129), strings.Repeat("m", 127) + "i", "MMMMCMXCIX", "IIII", "VIIII", "CMXCIX"}
 	m["uu"] = []string{"ffffffff-ffff-ffff-ffff-ffffffffffff", "FFFFFFFF-FFFF-FFFF-FFFF-FFFFFFFFFFFF", "urn:uuid:ffffffff-ffff-ffff-ffff-ffffffffffff", "00000000-0000-0000-0000-000000000000", "80000000-0000-0000-8000-000000000000", "7fffffff-ffff-ffff-7fff-ffffffffffff"}
+	// a two-byte character in place of two hex digits keeps the length right (its code point's low byte is a hex digit)
+	const plain = "11111111-1111-1111-1111-111111111111"
+	for _, rn := range []string{"\u0131", "\u0141", "\u0161", "\u0130", "\u01fa"} {
+		for _, pos := range []int{0, 6, 9, 19, 24, 34} {
+			t := plain[:pos] + rn + plain[pos+2:]
+			m["uu"] = append(m["uu"], t, "urn:uuid:"+t)
+		}
+	}
 	return m
 }()
 
@@ -363,7 +371,8 @@ var validTexts = map[string][]string{
 	"uu":    {"00000000-0000-0000-0000-000000000001", "urn:uuid:123e4567-e89b-12d3-a456-426614174000", "URN:uuid:123E4567-E89B-12D3-A456-426614174000", "Urn:uuid:ffffffff-ffff-4fff-bfff-fffffffffff0", "123E4567-E89B-12D3-A456-426614174000", "ffffffff-ffff-4fff-bfff-ffffffffffff"},
 }
 
-var sizeJSON = []string{`"7" "8"`, `"7" x`, `7 8`, `"7"`, `"7 B"`, `{"value":7,"unit":"B"} 8`, `10`, `"20 KiB"`, `{"value":1,"unit":"KiB"}`, `{"unit":"MB","value":3,"x":[1,{"y":null}]}`, ` {"value":5,"unit":"B"} `, `"1_000"`, `18446744073709551615`,
+var sizeJSON = []string{`"\x31KiB"`, `"\061"`, `"\x31\x30"`, `"\a"`, `"1\v"`, `"\U00000031 kB"`, `'1'`, `"1\u0020kB"`, `"\u0031\u0030"`,
+	`"7" "8"`, `"7" x`, `7 8`, `"7"`, `"7 B"`, `{"value":7,"unit":"B"} 8`, `10`, `"20 KiB"`, `{"value":1,"unit":"KiB"}`, `{"unit":"MB","value":3,"x":[1,{"y":null}]}`, ` {"value":5,"unit":"B"} `, `"1_000"`, `18446744073709551615`,
 	`{"value":1}`, `{"value":1,"unit":"KiB"`, `{"value":1,"unit":"KiB"}}`, `10 x`, `"1 kB" 2`, `{"value":-1,"unit":"B"}`, `{"value":"1","unit":"B"}`, `[1]`, `null`, `true`, `1.5`, `"x"`, `{"value":1,"unit":"KiB","value":2}`, `{"value":18446744073709551615,"unit":"kB"}`}
 
 func mutateText(rt *rapid.T, s string) string {
